@@ -14,6 +14,7 @@ import SkNet.Lemmas.MergeW
 import SkNet.Lemmas.DasguptaInit
 import SkNet.Lemmas.DasguptaDef
 import SkNet.Lemmas.DasguptaRelabel
+import SkNet.Lemmas.Reduce
 
 namespace SkNet.C08
 open SkNet SkNet.Dendro SkNet.Cut
@@ -111,6 +112,68 @@ theorem mergeLoop_final {n : Nat} {ok : Row α → List Nat → List Nat → Boo
   · have := mergeLoop_cinv n ok D [] (initCluster n) st h (cinv_init n)
     simpa using this
   · exact mergeLoop_all n ok (· ≠ []) (by intro r ci cj _ h1 _; simp [h1]) D 0 _ st h (initCluster_nonempty n)
+
+/-! ### the reduced dendrogram (`return_dendrogram=True`) -/
+
+/-- **The dendrogram returned by a cut with `return_dendrogram=True` is valid** (`reducedDendro_valid`), on the model
+    of the second half of `get_labels`: for a valid dendrogram `D` and a cluster dict satisfying the invariant of
+    the merge loop (what `cut_straight` / `cut_balanced` pass, `mergeLoop_final`), whenever `get_labels` returns,
+    the dendrogram `R` it returns is a valid dendrogram over the `k` clusters taken as leaves weighted by their
+    sizes (row `t` merges two distinct live clusters, sizes add, `k - 1` rows), its heights are heights of `D` in
+    the same order, and the cluster sizes sum to `n`. The loop itself never fails on such inputs
+    (`SkNet.Cut.reduce_final`: every `pop` finds its key). -/
+theorem reducedDendro_valid {D : Dendro α} {st : Dict (List Nat)} {srt : Bool} {argsort : List Nat → List Nat}
+    (hs : SortsDesc argsort) (hv : ValidDendro (D.length + 1) D = true) (hinv : CInv (D.length + 1) D st)
+    (hne : ∀ p ∈ st, p.2 ≠ []) {out : CutOut α} (h : getLabels D st srt true argsort = .ok out) :
+    ∃ R, out.dendro = some R ∧
+      ValidDendroW ((orderedClusters st srt argsort).map List.length) R = true ∧
+      (R.map (fun (q : Row α) => q.h)).Sublist (D.map (fun (q : Row α) => q.h)) ∧
+      ((orderedClusters st srt argsort).map List.length).sum = D.length + 1 := by
+  obtain ⟨hsl, _⟩ := getLabels_subtrees hs hinv hne h
+  have hsum : ((orderedClusters st srt argsort).map List.length).sum = D.length + 1 := by
+    rw [← List.length_flatten, hsl.partition.length_eq, List.length_range]
+  have hlab : ∀ u, u < D.length + 1 → out.labels.getD u 0 < (orderedClusters st srt argsort).length :=
+    fun u hu => (hsl.label_class hu).1
+  have hcl : ∀ c, c < (orderedClusters st srt argsort).length →
+      ∃ cc, (orderedClusters st srt argsort)[c]? = some cc ∧ cc ∈ orderedClusters st srt argsort := by
+    intro c hc
+    exact ⟨_, List.getElem?_eq_getElem hc, List.getElem_mem hc⟩
+  have hnonempty : ∀ c, c < (orderedClusters st srt argsort).length →
+      ∃ u, u < D.length + 1 ∧ out.labels.getD u 0 = c := by
+    intro c hc
+    obtain ⟨cc, hcc, hmem⟩ := hcl c hc
+    obtain ⟨u, hu⟩ := List.exists_mem_of_ne_nil _ (hsl.subtree cc hmem).1
+    have : u ∈ (orderedClusters st srt argsort).flatten := List.mem_flatten.mpr ⟨cc, hmem, hu⟩
+    have hun : u < D.length + 1 := by simpa using hsl.partition.mem_iff.mp this
+    exact ⟨u, hun, hsl.label c cc hcc u hu⟩
+  have hcls : ∀ c, c < (orderedClusters st srt argsort).length → ∃ ρ, ρ < D.length + 1 + D.length ∧
+      ∀ u, u < D.length + 1 → (out.labels.getD u 0 = c ↔ u ∈ leaves (D.length + 1) D ρ) := by
+    intro c hc
+    obtain ⟨cc, hcc, hmem⟩ := hcl c hc
+    obtain ⟨_, x, hx, hxe⟩ := hsl.subtree cc hmem
+    refine ⟨x, hx, ?_⟩
+    intro u hu
+    rw [← hxe]
+    exact (hsl.label_class hu).2 c cc hcc
+  have hR0 := rinv_init (α := α) (n := D.length + 1) (lab := fun u => out.labels.getD u 0) rfl hlab hnonempty
+  obtain ⟨st', hrun, hvalid, hheights⟩ := reduce_final (List.length_map _) D hv hcls hR0
+  have hlen := hsl.length
+  unfold getLabels at h
+  simp only [bind, Except.bind] at h
+  split at h
+  · cases h
+  · rename_i labels hl
+    simp only [if_true] at h
+    split at h
+    · cases h
+    · rename_i stR hred
+      simp only [pure, Except.pure, Except.ok.injEq] at h
+      subst h
+      simp only at hlen hrun
+      rw [hlen] at hred
+      rw [hrun] at hred
+      cases hred
+      exact ⟨st'.rows, rfl, hvalid, hheights, hsum⟩
 
 /-! ### cut_balanced -/
 
@@ -578,6 +641,63 @@ theorem cutStraight_valid_input {D0 : Dendro α} {nc : Option Nat} {thr : Option
         have habf : (a == b) = false := by simpa using hab
         simp only [habf, Bool.false_or, hDa, hDb]
         exact h2
+
+/-- **cut_straight with `return_dendrogram=True`** on a valid dendrogram whose heights never decrease towards the
+    root: the dendrogram returned is a valid dendrogram over the returned clusters (as leaves weighted by their
+    sizes, which sum to `n`), and its heights are heights of the dendrogram that was cut (the given one, reordered by
+    height if it was not sorted), in the same order. -/
+theorem cutStraight_dendro_valid {D0 : Dendro α} {nc : Option Nat} {thr : Option α} {srt : Bool}
+    {argsort : List Nat → List Nat} (hs : SortsDesc argsort) {out : CutOut α}
+    (hv : ValidDendro (D0.length + 1) D0 = true) (hm : MonoPaths (D0.length + 1) D0 = true)
+    (h : cutStraight D0 nc thr srt true argsort = .ok out) :
+    ∃ D cl R, (D = D0 ∨ reorderDendrogram D0 = .ok D) ∧
+      SubtreeLabelling (D0.length + 1) D out.labels srt cl ∧ out.dendro = some R ∧
+      ValidDendroW (cl.map List.length) R = true ∧
+      (R.map (fun (q : Row α) => q.h)).Sublist (D.map (fun (q : Row α) => q.h)) ∧
+      (cl.map List.length).sum = D0.length + 1 := by
+  obtain ⟨D, k, cut, st, hD, _, _, hloop, hlab⟩ := cutStraight_unfold h
+  have hlen : D.length = D0.length := by
+    rcases hD with e | e
+    · rw [e]
+    · exact reorderDendrogram_length e
+  have hvD : ValidDendro (D0.length + 1) D = true := by
+    rcases hD with e | e
+    · rw [e]; exact hv
+    · obtain ⟨D', hD', hvD', _⟩ := reorder_valid_core hv hm
+      rw [e] at hD'
+      cases hD'
+      exact hvD'
+  rw [← hlen] at hloop hvD ⊢
+  obtain ⟨hinv, hne⟩ := mergeLoop_final hloop
+  obtain ⟨hsub, _⟩ := getLabels_subtrees hs hinv hne hlab
+  obtain ⟨R, h1, h2, h3, h4⟩ := reducedDendro_valid hs hvD hinv hne hlab
+  exact ⟨D, _, R, hD, hsub, h1, h2, h3, h4⟩
+
+/-- non-vacuity: two clusters {0,1}, {2,3}; the reduced dendrogram has the single row (0, 1, 3, 4) -/
+example : (cutStraight (α := Nat) [⟨0, 1, 1, 2⟩, ⟨2, 3, 2, 2⟩, ⟨4, 5, 3, 4⟩] (some 2) none true true
+      argsortDesc).toOption.map (·.dendro) = some (some [⟨0, 1, 3, 4⟩]) ∧
+    ValidDendroW [2, 2] ([⟨0, 1, 3, 4⟩] : Dendro Nat) = true := by
+  refine ⟨by decide, by decide⟩
+
+/-- **cut_balanced with `return_dendrogram=True`** on a valid dendrogram: same statement. -/
+theorem cutBalanced_dendro_valid {D : Dendro α} {m : Nat} {srt : Bool} {argsort : List Nat → List Nat}
+    (hs : SortsDesc argsort) {out : CutOut α} (hv : ValidDendro (D.length + 1) D = true)
+    (h : cutBalanced D m srt true argsort = .ok out) :
+    ∃ cl R, SubtreeLabelling (D.length + 1) D out.labels srt cl ∧ out.dendro = some R ∧
+      ValidDendroW (cl.map List.length) R = true ∧
+      (R.map (fun (q : Row α) => q.h)).Sublist (D.map (fun (q : Row α) => q.h)) ∧
+      (cl.map List.length).sum = D.length + 1 := by
+  obtain ⟨_, _, st, hloop, hlab⟩ := cutBalanced_unfold h
+  obtain ⟨hinv, hne⟩ := mergeLoop_final hloop
+  obtain ⟨hsub, _⟩ := getLabels_subtrees hs hinv hne hlab
+  obtain ⟨R, h1, h2, h3, h4⟩ := reducedDendro_valid hs hv hinv hne hlab
+  exact ⟨_, R, hsub, h1, h2, h3, h4⟩
+
+/-- non-vacuity: cap 2 on a caterpillar of 4 leaves: clusters {0,1}, {2}, {3}, reduced rows (0,1) then (3,2) -/
+example : (cutBalanced (α := Nat) [⟨0, 1, 1, 2⟩, ⟨4, 2, 2, 3⟩, ⟨5, 3, 3, 4⟩] 2 true true
+      argsortDesc).toOption.map (·.dendro) = some (some [⟨0, 1, 2, 3⟩, ⟨3, 2, 3, 4⟩]) ∧
+    ValidDendroW [2, 1, 1] ([⟨0, 1, 2, 3⟩, ⟨3, 2, 3, 4⟩] : Dendro Nat) = true := by
+  refine ⟨by decide, by decide⟩
 
 end straightReordered
 
